@@ -118,6 +118,7 @@ class Export:
         self.root = next(i for i, n in enumerate(self.nodes) if n.is_shared_root())
         self.run_params = run_params or {}
         self.byname = {n.params["name"]: i for i, n in enumerate(self.nodes)}
+        self.dynamic = False          # lazy runs: the graph grows while it is traversed
         self.prefix0 = {i: n.prefix for i, n in enumerate(self.nodes)}
         # rank: position in the order induced by prefix_priority on long_prefix (ties share a rank)
         from avocado_i2n.cartgraph import TestNode
@@ -129,6 +130,19 @@ class Export:
             if k > 0 and TestNode.prefix_priority(self.nodes[order[k - 1]].long_prefix, self.nodes[i].long_prefix) != 0:
                 r = k
             self.rank[i] = r
+
+    def refresh(self):
+        for n in self.g.nodes:
+            if id(n) not in self.nidx:
+                self.nidx[id(n)] = len(self.nodes)
+                self.nodes.append(n)
+                self.byname[n.params["name"]] = self.nidx[id(n)]
+                self.prefix0[self.nidx[id(n)]] = n.prefix
+
+    def ix(self, node):
+        if id(node) not in self.nidx and self.dynamic:
+            self.refresh()
+        return self.nidx[id(node)]
 
     def intern(self, table, key):
         return table.setdefault(key, len(table) + 1)
@@ -274,6 +288,8 @@ class Run:
     def door_request(self, worker, action, p):
         from aexpect.exceptions import ShellCmdError
         w = self.x.widx[worker.id]
+        if p["name"] not in self.x.byname and self.x.dynamic:
+            self.x.refresh()
         ni = self.x.byname[p["name"]]
         scopes = p.get("pool_scope", "").split()
         if action == "check":
@@ -378,40 +394,45 @@ class Run:
 
         def pick_parent(self, worker):
             r = orig["pick_parent"](self, worker)
-            run.cur.append(("pick", x.widx[worker.id], x.nidx[id(self)], x.nidx[id(r)], False))
+            run.cur.append(("pick", x.widx[worker.id], x.ix(self), x.ix(r), False))
             return r
 
         def pick_child(self, worker):
             r = orig["pick_child"](self, worker)
-            run.cur.append(("pick", x.widx[worker.id], x.nidx[id(self)], x.nidx[id(r)], True))
+            run.cur.append(("pick", x.widx[worker.id], x.ix(self), x.ix(r), True))
             return r
 
         def drop_parent(self, node, worker):
-            run.cur.append(("dropp", x.widx[worker.id], x.nidx[id(self)], x.nidx[id(node)]))
+            run.cur.append(("dropp", x.widx[worker.id], x.ix(self), x.ix(node)))
             return orig["drop_parent"](self, node, worker)
 
         def drop_child(self, node, worker):
-            ev = ("dropc", x.widx[worker.id], x.nidx[id(node)])
+            ev = ("dropc", x.widx[worker.id], x.ix(node))
             if not run.cur or run.cur[-1] != ev:
                 run.cur.append(ev)
             return orig["drop_child"](self, node, worker)
 
         def run_decision(self, worker):
             r = orig["default_run_decision"](self, worker)
-            if id(self) in x.nidx:
-                run.cur.append(("decide", x.widx[worker.id], x.nidx[id(self)], bool(r)))
+            if id(self) in x.nidx or x.dynamic:
+                run.cur.append(("decide", x.widx[worker.id], x.ix(self), bool(r)))
             return r
 
         def clean_decision(self, worker):
             r = orig["default_clean_decision"](self, worker)
-            run.cur.append(("clean", x.widx[worker.id], x.nidx[id(self)], bool(r)))
+            run.cur.append(("clean", x.widx[worker.id], x.ix(self), bool(r)))
             return r
 
         async def run_test_task(self, node):
             w = x.widx[node.started_worker.id]
-            pre = id(node) not in x.nidx
-            real = node if not pre else run.pre_of[id(node)]
-            ni = x.nidx[id(real)]
+            if x.dynamic:
+                x.refresh()
+                pre = node.params.get("type") == "shared_configure_install" and id(node) not in x.nidx
+                real = node if not pre else next(nd for nd in x.g.nodes if nd.is_object_root() and nd.started_worker is node.started_worker)
+            else:
+                pre = id(node) not in x.nidx
+                real = node if not pre else run.pre_of[id(node)]
+            ni = x.ix(real)
             uid = node.id_test.uid
             base = "0" if pre else x.prefix0[ni]
             suffix = 0 if uid == base else (int(uid[len(base) + 1:]) if uid.startswith(base + "r") and uid[len(base) + 1:].isdigit() else 999)
@@ -459,17 +480,18 @@ class Run:
                 await Suspend(("bounce", t))
         self.pre_of = {}
         # the policies are bound to each node at construction: re-bind the default ones to the recorders
-        for n in x.nodes:
+        for n in ([] if x.dynamic else x.nodes):
             if getattr(n.should_run, "__func__", None) is orig["default_run_decision"]:
                 n.should_run = functools.partial(run_decision, n)
             if getattr(n.should_clean, "__func__", None) is orig["default_clean_decision"]:
                 n.should_clean = functools.partial(clean_decision, n)
-        return [mock.patch.object(TestNode, "pick_parent", pick_parent), mock.patch.object(TestNode, "pick_child", pick_child),
+        static_only = [] if x.dynamic else [mock.patch.object(TestGraph, "parse_node_from_object", staticmethod(parse_node_from_object))]
+        return static_only + [
+                mock.patch.object(TestNode, "pick_parent", pick_parent), mock.patch.object(TestNode, "pick_child", pick_child),
                 mock.patch.object(TestNode, "drop_parent", drop_parent), mock.patch.object(TestNode, "drop_child", drop_child),
                 mock.patch.object(TestNode, "default_run_decision", run_decision),
                 mock.patch.object(TestNode, "default_clean_decision", clean_decision),
                 mock.patch.object(TestRunner, "run_test_task", run_test_task),
-                mock.patch.object(TestGraph, "parse_node_from_object", staticmethod(parse_node_from_object)),
                 mock.patch.object(TestGraph, "report_progress", lambda self: None),
                 mock.patch.object(TestWorker, "get_session", lambda self: Session(self)),
                 mock.patch("avocado_i2n.cartgraph.node.door", self.door()),
